@@ -2,7 +2,7 @@
 //!   echo                      read stdin, write it back, exit 0
 //!   exit:<code>:<nothing|half|all>   read stdin, write that much of it, exit <code>
 //!   signal:<KILL|SEGV|PIPE|ABRT>:<nothing|half>  read stdin, write part, kill self
-//!   badutf8                   read stdin, write it back with 0xFF bytes spliced in, exit 0
+//!   badutf8[:<code>]          read stdin, write it back with 0xFF bytes spliced in, exit <code> (default 0)
 //!   close-stdin:<code>        close stdin at once, exit <code> without output
 //!   never-read:<code>         never read stdin, wait 150 ms, exit <code>
 //!   never-read-flood:<code>   never read stdin, write 2 MiB to stdout, exit <code>
@@ -81,6 +81,7 @@ fn main() {
             i.insert(n, 0xFF);
             i.push(0xC0);
             write_out(&i);
+            std::process::exit(parts.get(1).and_then(|c| c.parse().ok()).unwrap_or(0));
         }
         "close-stdin" => {
             unsafe {
